@@ -6,8 +6,10 @@ EXTENDS Bytes
 
 \* ---- 4.2 multiplication in GF(2^8) modulo x^8 + x^4 + x^3 + x + 1
 AesXtime(a) == LET s == (a * 2) % 256 IN IF a >= 128 THEN s ^^ 27 ELSE s
-RECURSIVE AesGMul(_, _)
-AesGMul(a, b) == IF b = 0 THEN 0 ELSE (IF b % 2 = 1 THEN a ELSE 0) ^^ AesGMul(AesXtime(a), b \div 2)
+\* a . b = sum over the bits b_k of b of  b_k . (a . x^k)
+AesGMul(a, b) ==
+  FoldLeft(LAMBDA acc, k : [p |-> IF (b \div (2 ^ (k - 1))) % 2 = 1 THEN acc.p ^^ acc.a ELSE acc.p, a |-> AesXtime(acc.a)],
+           [p |-> 0, a |-> a], Upto(8)).p
 \* multiplicative inverse: a^254 (AesInvOk states that it is the inverse; checked by the self-test case)
 AesSq(a) == AesGMul(a, a)
 AesInvOf(a) ==
@@ -34,37 +36,37 @@ AesMul13 == [a \in 0..255 |-> AesGMul(a, 13)]
 AesMul14 == [a \in 0..255 |-> AesGMul(a, 14)]
 
 X4(a, b, c, d) == (a ^^ b) ^^ (c ^^ d)
-AesSubBytes(s) == [i \in 1..16 |-> AesSBox[s[i]]]
+AesSubBytes(s) == Strict([i \in 1..16 |-> AesSBox[s[i]]])
 \* 5.1.2 ShiftRows: row r is rotated left by r columns
-AesShiftRows(s) == [i \in 1..16 |-> LET r == (i - 1) % 4  c == (i - 1) \div 4 IN s[((c + r) % 4) * 4 + r + 1]]
+AesShiftRows(s) == Strict([i \in 1..16 |-> LET r == (i - 1) % 4  c == (i - 1) \div 4 IN s[((c + r) % 4) * 4 + r + 1]])
 \* 5.1.3 MixColumns: each column multiplied by {03}x^3 + {01}x^2 + {01}x + {02}
 AesMixColumns(s) ==
-  [i \in 1..16 |->
+  Strict([i \in 1..16 |->
      LET c == (i - 1) \div 4   r == (i - 1) % 4
          a0 == s[4 * c + 1]  a1 == s[4 * c + 2]  a2 == s[4 * c + 3]  a3 == s[4 * c + 4]
      IN CASE r = 0 -> X4(AesMul2[a0], AesMul3[a1], a2, a3)
           [] r = 1 -> X4(a0, AesMul2[a1], AesMul3[a2], a3)
           [] r = 2 -> X4(a0, a1, AesMul2[a2], AesMul3[a3])
-          [] OTHER -> X4(AesMul3[a0], a1, a2, AesMul2[a3])]
+          [] OTHER -> X4(AesMul3[a0], a1, a2, AesMul2[a3])])
 
 \* ---- 5.2 key expansion; words are 4-byte sequences, W[i] is word i-1
 AesRcon(i) == FoldLeft(LAMBDA acc, k : AesXtime(acc), 1, Upto(i - 1))       \* x^(i-1)
-AesSubWord(w) == [i \in 1..4 |-> AesSBox[w[i]]]
+AesSubWord(w) == Strict([i \in 1..4 |-> AesSBox[w[i]]])
 AesRotWord(w) == <<w[2], w[3], w[4], w[1]>>
 AesNr(key) == Len(key) \div 4 + 6
 AesKeyExpansion(key) ==
   LET Nk == Len(key) \div 4
       Nr == Nk + 6
-      W0 == [i \in 1..Nk |-> SubSeq(key, 4 * (i - 1) + 1, 4 * i)]
+      W0 == Strict([i \in 1..Nk |-> SubSeq(key, 4 * (i - 1) + 1, 4 * i)])
       Step(W, i) ==     \* i = 0-based index of the word being produced
         LET prev == W[i]
             t == IF i % Nk = 0 THEN XorSeq(AesSubWord(AesRotWord(prev)), <<AesRcon(i \div Nk), 0, 0, 0>>)
                  ELSE IF Nk > 6 /\ i % Nk = 4 THEN AesSubWord(prev) ELSE prev
         IN Append(W, XorSeq(W[i - Nk + 1], t))
-  IN FoldLeft(Step, W0, [j \in 1..(4 * (Nr + 1) - Nk) |-> Nk + j - 1])
+  IN FoldLeft(Step, W0, Strict([j \in 1..(4 * (Nr + 1) - Nk) |-> Nk + j - 1]))
 AesRoundKey(W, r) == W[4 * r + 1] \o W[4 * r + 2] \o W[4 * r + 3] \o W[4 * r + 4]
 \* the key schedule as a list of Nr+1 round keys (index r+1 = round key r)
-AesSchedule(key) == LET W == AesKeyExpansion(key) IN [r \in 1..(AesNr(key) + 1) |-> AesRoundKey(W, r - 1)]
+AesSchedule(key) == LET W == AesKeyExpansion(key) IN Strict([r \in 1..(AesNr(key) + 1) |-> AesRoundKey(W, r - 1)])
 
 \* ---- 5.1 Cipher
 AesEncryptRK(RK, blk) ==
@@ -75,16 +77,16 @@ AesEncryptRK(RK, blk) ==
   IN XorSeq(AesShiftRows(AesSubBytes(sN)), RK[Nr + 1])
 
 \* ---- 5.3 Inverse cipher
-AesInvShiftRows(s) == [i \in 1..16 |-> LET r == (i - 1) % 4  c == (i - 1) \div 4 IN s[((c + 4 - r) % 4) * 4 + r + 1]]
-AesInvSubBytes(s) == [i \in 1..16 |-> AesInvSBox[s[i]]]
+AesInvShiftRows(s) == Strict([i \in 1..16 |-> LET r == (i - 1) % 4  c == (i - 1) \div 4 IN s[((c + 4 - r) % 4) * 4 + r + 1]])
+AesInvSubBytes(s) == Strict([i \in 1..16 |-> AesInvSBox[s[i]]])
 AesInvMixColumns(s) ==
-  [i \in 1..16 |->
+  Strict([i \in 1..16 |->
      LET c == (i - 1) \div 4   r == (i - 1) % 4
          a0 == s[4 * c + 1]  a1 == s[4 * c + 2]  a2 == s[4 * c + 3]  a3 == s[4 * c + 4]
      IN CASE r = 0 -> X4(AesMul14[a0], AesMul11[a1], AesMul13[a2], AesMul9[a3])
           [] r = 1 -> X4(AesMul9[a0], AesMul14[a1], AesMul11[a2], AesMul13[a3])
           [] r = 2 -> X4(AesMul13[a0], AesMul9[a1], AesMul14[a2], AesMul11[a3])
-          [] OTHER -> X4(AesMul11[a0], AesMul13[a1], AesMul9[a2], AesMul14[a3])]
+          [] OTHER -> X4(AesMul11[a0], AesMul13[a1], AesMul9[a2], AesMul14[a3])])
 AesDecryptRK(RK, blk) ==
   LET Nr == Len(RK) - 1
       s0 == XorSeq(blk, RK[Nr + 1])
